@@ -132,6 +132,104 @@ def _cpu(body):
     return 0, f"{text}: contract holds natively"
 
 
+def _regs(body):
+    """C08 set/get contracts replayed on plain ints."""
+    from binja_test_mocks import binja_api  # noqa: F401
+    from sc62015.pysc62015 import emulator as EMU
+    import z3
+    from spec import regfile as RF
+    unit, model = body["unit"], body["model"]
+    if model is None or "reg" not in unit:
+        return 4, "no concrete input for this obligation"
+    regs = EMU.Registers()
+    view = {}
+    for b in RF.BASE_MASK:
+        regs._values[EMU.RegisterName[b]] = model.get(b, 0)
+        view[b] = RF.bv(model.get(b, 0))
+    v = model.get("v", 0)
+    if v >= 1 << 63:
+        v -= 1 << 64
+    r = unit["reg"]
+    api = unit.get("api", "enum")
+    if api == "enum":
+        regs.set(EMU.RegisterName[r], v)
+    elif api == "name":
+        regs.set_by_name(r, v)
+    else:
+        regs.set_flag({"FC": "C", "FZ": "Z"}[r], v)
+    want = RF.set_(view, r, RF.bv(v & ((1 << 64) - 1)))
+    bad = []
+    for b in RF.BASE_MASK:
+        w = z3.simplify(want[b]).as_long()
+        g = regs._values[EMU.RegisterName[b]]
+        if w != g:
+            bad.append(f"{b}: spec {w:#x}, stored {g:#x}")
+    for q in RF.ALL:
+        w = z3.simplify(RF.get(want, q)).as_long()
+        g = regs.get(EMU.RegisterName[q])
+        if w != g:
+            bad.append(f"get({q}): spec {w:#x}, got {g:#x}")
+    if bad:
+        return 1, f"set({r}, {v:#x}) via {api}: " + "; ".join(bad[:6])
+    return 0, "register contract holds natively"
+
+
+def _cpu_branch(body):
+    """C05: branch facts from the real analyze() vs the PC the real execution reaches."""
+    name = body.get("obligation") or ""
+    if name.startswith("reg:") or name in ("mem", "reads", "halted"):
+        return _cpu(body)
+    from binja_test_mocks import binja_api  # noqa: F401
+    from binaryninja.enums import BranchType as BT
+    from sc62015.pysc62015 import emulator as EMU
+    from binja_test_mocks.tokens import asm_str
+    import re
+    unit, model = body["unit"], body["model"]
+    if model is None:
+        return 4, "no model"
+    cells = {int(k): v for k, v in (model.get("@cells") or {}).items()}
+    addr = model.get("addr", 0x1000)
+    code = ([unit["pre"]] if unit.get("pre") is not None else []) + [unit["opcode"]]
+    for i, b in enumerate(code):
+        cells[addr + i] = b
+    mem = dict(cells)
+    emu = EMU.Emulator(EMU.Memory(lambda a: mem.get(a, 0), lambda a, v: mem.__setitem__(a, v)), reset_on_init=False)
+    RN = EMU.RegisterName
+    for r in ("BA", "I", "X", "Y", "U", "S", "F"):
+        emu.regs._values[RN[r]] = model.get(r, 0)
+    if unit.get("block_n") is not None:
+        emu.regs._values[RN.I] = unit["block_n"]
+    f0 = model.get("F", 0)
+    ev = emu.execute_instruction(addr)
+    instr, info = ev.instruction, ev.instruction_info
+    text = asm_str(instr.render())
+    pc = emu.regs.get(RN.PC)
+    nxt = (addr + instr.length()) & 0xFFFFF
+    mn = text.split()[0]
+    m = re.fullmatch(r"(JP|JR)(Z|NZ|C|NC)", mn)
+    taken = None
+    if m:
+        taken = {"Z": bool(f0 & 2), "NZ": not (f0 & 2), "C": bool(f0 & 1), "NC": not (f0 & 1)}[m.group(2)]
+    br = [(b.type, b.target) for b in info.branches]
+    probs = []
+    if info.length != instr.length():
+        probs.append(f"info.length {info.length} != {instr.length()}")
+    if not br and pc != nxt and mn != "IR":
+        probs.append(f"no branch reported but PC={pc:#x} != next {nxt:#x}")
+    for t, tgt in br:
+        if t in (BT.UnconditionalBranch, BT.CallDestination) and (tgt & 0xFFFFF) != pc:
+            probs.append(f"{t.name} target {tgt:#x} but PC={pc:#x}")
+        if t == BT.TrueBranch and taken and (tgt & 0xFFFFF) != pc:
+            probs.append(f"TrueBranch target {tgt:#x} but taken PC={pc:#x}")
+        if t == BT.FalseBranch and taken is False and (tgt & 0xFFFFF) != pc:
+            probs.append(f"FalseBranch target {tgt:#x} but not-taken PC={pc:#x}")
+        if t == BT.FalseBranch and (tgt & 0xFFFFF) != nxt:
+            probs.append(f"FalseBranch target {tgt:#x} is not address+length {nxt:#x}")
+    if probs:
+        return 1, f"{text} @ {addr:#x}: " + "; ".join(probs)
+    return 0, f"{text} @ {addr:#x}: branch facts agree with execution natively"
+
+
 HANDLERS = {}
 
 
@@ -144,6 +242,8 @@ def handler(*props):
 
 
 handler("C03", "C04", "C07")(_cpu)
+handler("C08")(_regs)
+handler("C05")(_cpu_branch)
 
 
 def main():
